@@ -13,9 +13,9 @@ so every field of the state machine — known to this harness or not — has the
 obligations are those of the one-step check (they are statements about one step from a reachable state; state 1 is reachable
 by construction). There is no executable replay for a two-message history yet: violations carry the solver witness.
 Bounds: N = 2, no vote caches in state 0 (a restart empties them), A restricted to its accepting paths and to plain
-justifications (a commit certificate, or a timeout certificate whose votes report nothing); quick tier: state 0 in phase Prepare
-holding only a commit certificate and the second input well signed by a validator; thorough tier: state 0 also in phase Timeout,
-with / without high vote, commit and timeout certificate, and an arbitrary second input."""
+justifications (a commit certificate, or a timeout certificate whose votes report nothing); state 0 holds a commit certificate and no
+timeout certificate; the second input is well signed by a validator (refused inputs are the one-step check's subject). Quick tier:
+state 0 in phase Prepare without a high vote, 4 (A, B) pairs; thorough tier: phase Prepare / Timeout, with / without a high vote, 14 pairs."""
 import time
 import z3
 from mirsym.core import (Exec, explore, solve, Num, Agg, Ref, Cell, Opaque, Panic, Unmodelled, BoundExceeded, Infeasible, num_cmp, to_z3_bool, UNIT)
@@ -68,9 +68,9 @@ def run_pair(arg):
         hv = none(); cqc = none(); tqc = none()
         if wide and ex.choose(2, 'st_hv') == 0:
             hvv, st['hv'] = w.replica_commit('st_hv'); hv = some(hvv); ex.assume(st['hv']['view'].e <= view.e)
-        if not wide or ex.choose(2, 'st_cqc') == 0:
+        if True:
             c, st['cqc'] = w.commit_qc('st_cqc', own=True); cqc = some(c)
-        if wide and ex.choose(2, 'st_tqc') == 0:
+        if False:
             t, st['tqc'] = w.timeout_qc('st_tqc', own=True, with_votes=False); tqc = some(t); ex.assume(st['tqc']['view'].e < view.e)
         just = [view.e == 0]
         if st['tqc'] is not None: just.append(st['tqc']['view'].e + 1 == view.e)
@@ -101,8 +101,8 @@ def run_pair(arg):
         w.pre = pre2; w.pre_snapshot = mid; w.log = []
         set_field(w.sm_cell.v, 'view_timeout', Opaque('deadline0'))
         argsB, infoB = RC.build_input(ex, w, B, N, pfx='in2')
-        if not wide and 'author' in infoB:
-            # quick tier: the second input is well signed by a validator (refused inputs are the one-step check's subject)
+        if 'author' in infoB:
+            # the second input is well signed by a validator (refused inputs are the one-step check's subject)
             if infoB['author'] >= N: raise Infeasible()
             ex.assume(infoB['sig_ok'])
         rB = R.run_handler(ex, db, w, B, argsB)
